@@ -28,7 +28,8 @@ var allSolvers = []solverSpec{
 }
 
 // quick tier races the two solvers that decide fastest in practice; the
-// thorough tier runs all three to completion and requires agreement.
+// thorough tier runs all three and requires two agreeing definitive answers
+// (all three when two disagree or fewer than two are definitive).
 var solvers = allSolvers
 
 var procSem = make(chan struct{}, runtime.NumCPU())
@@ -154,7 +155,11 @@ func solveScriptWith(use []solverSpec, dir, name, script string, n, timeoutSec i
 	res := solveResult{All: map[string][]string{}}
 	var best *ans
 	var outputs []string
+	nDef := 0
 	for range use {
+		if nDef >= 1 && all {
+			break
+		}
 		a := <-ch
 		a2 := a
 		res.All[a.solver] = a.vs
@@ -172,10 +177,18 @@ func solveScriptWith(use []solverSpec, dir, name, script string, n, timeoutSec i
 					break
 				}
 			} else {
+				agree := true
 				for i := range a.vs {
 					if a.vs[i] != best.vs[i] {
 						best.vs[i] = "disagree"
+						agree = false
 					}
+				}
+				if agree {
+					// two independent solvers gave the same definitive answers: the
+					// third (usually the one that times out) is not waited for
+					cancel()
+					nDef++
 				}
 			}
 		} else if best == nil || !definitive(best.vs) {
